@@ -19,6 +19,8 @@ package pppoe
 //     D/<sid>                              dead peer reported by the echo generator
 //     X/<sid>/<mac>/<sv>/<cv>              restore of a persisted session (installInMemoryState)
 //     H/<sid>/<mac>/<sv>/<cv>[/<userhex>]  run-time HA restore (restoreFromHASync) of one checkpoint synced from the peer
+//     F/-<k>                               dataplane add failure (onVPPSessionCreated(err)) for the k-th newest session object
+//     A/-<k>                               AAA reject (handleAAAResponse) for the outstanding request of that session object
 //     K/<mac>/<sv.cv>,<sv.cv>,...          equivalence classes of c.sessionKey over these tuples
 //     W/<k>                                wait until the k-th second after the first second of the case
 //     L/<ttl_s>                            change the cookie manager's lifetime (unsafe seam)
@@ -677,6 +679,40 @@ func (w *vc04World) op1(tok string) string {
 			sb = append(sb, "u"+strconv.Itoa(u))
 		}
 		return "reach:" + strings.Join(sb, "+")
+	case "F", "A":
+		// F/-<k>: the queued dataplane add of the k-th most recently created (non-bulk) session object fails:
+		//         sess.onVPPSessionCreated(0, err) -> tearDownSessionAfterVPPFailure, unless already torn down
+		// A/-<k>: AAA answers the outstanding request of that session object with a reject:
+		//         handleAAAResponse(Allowed=false) -> handleDeadPeer(sid)
+		k, _ := strconv.Atoi(strings.TrimPrefix(p[1], "-"))
+		if k < 1 || k > len(w.order) {
+			return "nosess"
+		}
+		s := w.order[len(w.order)-k]
+		if p[0] == "F" {
+			s.onVPPSessionCreated(0, fmt.Errorf("dataplane add failed"))
+		} else {
+			s.mu.Lock()
+			req := s.pendingAuthRequestID
+			s.mu.Unlock()
+			if req == "" {
+				return "none"
+			}
+			c.handleAAAResponse(events.Event{Data: &events.AAAResponseEvent{Response: models.AAAResponse{RequestID: req, Allowed: false}}})
+		}
+		_, rel := w.bus.take()
+		seen := map[string]bool{}
+		var uniq []string
+		for _, r := range rel {
+			if !seen[r] {
+				seen[r] = true
+				uniq = append(uniq, r)
+			}
+		}
+		if len(uniq) == 0 {
+			return "none"
+		}
+		return "term:" + w.uids(uniq)
 	case "H":
 		// H/<sid>/<mac>/<sv>/<cv>[/<userhex>]: one checkpoint synced from the HA peer, then restoreFromHASync("srg1")
 		sid, mac, sv, cv := vc04U16(p[1]), vc04Hex(p[2]), vc04U16(p[3]), vc04U16(p[4])
